@@ -123,20 +123,25 @@ def analyse(ctx, C, fn, rep):
             pre.append(fm.le(1, S('num_')))
     it = symx.Interp(dom, lookup_in([C.m, C.hdr]), max_paths=2000, inline=lambda n: n not in summaries)
     it.prune_loops = True
+    facts0 = base_facts(C, psyms) + pre
+    ls = lin.LoopSummary(facts0, None)
+    it.loop_hook = ls
+    it.loop_leaves = []
     try:
         leaves = it.run(fn, args)
     except Unsupported as e:
         rep.unk('B2', name, str(e), loc=loc)
         return
     pruned = getattr(it, 'pruned', 0)
-    facts0 = base_facts(C, psyms) + pre
+    loop_leaves = list(it.loop_leaves)
     siz = S('siz_')
     nob = 0
     viol = []
     unk = []
-    for lf in leaves:
+    for lf in leaves + loop_leaves:
+        in_loop = hasattr(lf, 'loop_obligations')
         try:
-            cases = lin.cases_of(dom, lf, facts0)
+            cases = lin.cases_of(dom, lf, facts0, extra_terms=[x for o in getattr(lf, 'loop_obligations', []) for x in o[1:]])
         except Unsupported as e:
             unk.append(str(e))
             continue
@@ -169,9 +174,15 @@ def analyse(ctx, C, fn, rep):
                     unk.append('%s: non-linear extent' % e.name)
                     continue
                 goals.append(('%s at %s touches elements [%s, %s) of %s' % (e.name, fn.loc(e.ins) if e.ins else '?', X, sp.expand(X + Y), cap), g, e))
+            # ---- closed forms of a summarised loop are inductive on this iteration path
+            for desc_, a_, b_ in getattr(lf, 'loop_obligations', []):
+                try:
+                    goals.append(('loop summary: ' + desc_, [fm.le(a_, b_), fm.le(b_, a_)], 'loop'))
+                except fm.NonLinear:
+                    unk.append('non-linear loop summary')
             # ---- returned pointer
             r = lf.ret
-            if isinstance(r, Ptr):
+            if isinstance(r, Ptr) and not in_loop:
                 isst, off = C.storage(r)
                 if isst:
                     X = lin.divide(off, siz)
@@ -184,7 +195,7 @@ def analyse(ctx, C, fn, rep):
                         except fm.NonLinear:
                             unk.append('non-linear return offset')
             # ---- B1 invariant at exit (not for destructors)
-            if not name.endswith('_dtor') and not name.endswith('_die'):
+            if not name.endswith('_dtor') and not name.endswith('_die') and not in_loop:
                 try:
                     goals.append(('num_ <= mem_ at exit (num_=%s, mem_=%s)' % (fin['num_'], fin['mem_']), [fm.le(fin['num_'], fin['mem_']), fm.le(0, fin['num_'])], None))
                     if ('ctx', C.off['siz_']) in lf.store:
@@ -196,10 +207,13 @@ def analyse(ctx, C, fn, rep):
                 ok, failing = lin.prove(cs, gs)
                 if ok:
                     continue
+                if e == 'loop':
+                    unk.append('cannot prove: %s' % desc)
+                    continue
                 w = lin.witness(cs, failing, None)
                 if w is not None:
                     wit = ', '.join('%s=%s' % (k, v) for k, v in sorted(w.items(), key=lambda kv: str(kv[0])) if not str(k).startswith(('k', 'q', 'r', 'M')))
-                    viol.append((desc, wit, fn.loc(e.ins) if e is not None and e.ins else loc, cs.kenv))
+                    viol.append((desc, wit, fn.loc(e.ins) if e is not None and not isinstance(e, str) and e.ins else loc, cs.kenv))
                 else:
                     unk.append('cannot prove: %s' % desc)
     from props import C04_content
@@ -223,11 +237,13 @@ def analyse(ctx, C, fn, rep):
     elif unk:
         rep.unk('B2', sym, '; '.join(sorted(set(unk))[:2])[:400], loc=loc)
     else:
-        rep.ok('B2', sym, '%d paths, %d obligations discharged (effects, returned pointers, exit invariant) for all index/count values incl. wrap cases%s'
-               % (len(leaves), nob, '; %d paths enter loops that are not summarised (not decided)' % pruned if pruned else ''), loc=loc,
+        rep.ok('B2', sym, '%d paths%s, %d obligations discharged (effects, returned pointers, exit invariant) for all index/count values incl. wrap cases%s'
+               % (len(leaves), ' + %d loop-iteration paths of summarised loops' % len(loop_leaves) if loop_leaves else '', nob, '; %d paths enter loops that are not summarised (not decided)' % pruned if pruned else ''), loc=loc,
                sample={'fn': name, 'paths': len(leaves), 'obligations': nob, 'pruned_loop_paths': pruned})
     if pruned:
         rep.note('%s: %d paths enter un-summarised loops' % (name, pruned))
+    for n_ in ls.notes:
+        rep.note(n_)
 
 
 def setm_rule(ctx, C, rep):
@@ -315,16 +331,23 @@ def run(ctx):
         for n, f in sorted(C.hdr.functions.items()):
             if not f.error and n.startswith('a_%s_' % kind) and n not in C.m.functions:
                 fns.append(f)
+        todo = []
         for f in fns:
             ctx.rep.functions.add(f.name)
             if not f.params or not f.params[0][0].is_ptr:
                 continue       # constructors returning a fresh object (new)
             if f.name in ('a_vec_setm',):
                 continue
+            todo.append(f)
+        byname = {f.name: f for f in todo}
+
+        def one(nm, r_):
             try:
-                analyse(ctx, C, f, rep)
+                analyse(ctx, C, byname[nm], r_)
             except Unsupported as e:
-                rep.unk('B2', f.name, str(e))
+                r_.unk('B2', nm, str(e))
+        import par
+        par.fan_out(rep, [f.name for f in todo], one)
         if kind == 'vec':
             setm_rule(ctx, C, rep)
         sorted_guards(ctx, C, rep)
